@@ -179,6 +179,7 @@ func (f *Frame) modKeysStatic(con *Contract, callee *ssa.Function, sig *types.Si
 			if id, isId := sel.X.(*ast.Ident); isId && id.Name == "ghost" {
 				if srt, known := parsedGhosts[sel.Sel.Name]; known {
 					key := "X:ghost." + sel.Sel.Name
+					f.vc.ensureSortsIn(srt)
 					f.vc.compSrt[key] = normSort(srt)
 					keys[key] = true
 					continue
@@ -341,6 +342,12 @@ func (f *Frame) loopModifies(l *Loop) map[string]bool {
 					scanCall(&x.Call, depth)
 				case *ssa.Defer:
 					scanCall(&x.Call, depth)
+				case *ssa.Next:
+					if rng, ok := x.Iter.(*ssa.Range); ok && g == f {
+						if mt, isMap := rng.X.Type().Underlying().(*types.Map); isMap {
+							keys[f.rangeKey(rng, f.vc.sorts.sortOf(mt.Key()))] = true
+						}
+					}
 				case *ssa.Go:
 					keys["*"] = true
 				case *ssa.Alloc:
@@ -407,7 +414,36 @@ func (f *Frame) loopEnv(l *Loop, phiVals map[*ssa.Phi]Term, st *State) *Env {
 		}
 		env.vars[phi.Name()] = EV{t, phi.Type()}
 	}
-	env.lookup = f.localLookup(st)
+	// the hidden index of an enclosing range loop n is written rangeindex<n>
+	for _, outer := range f.loops {
+		if outer == l || !outer.Body[l.Header] {
+			continue
+		}
+		for _, phi := range f.headerPhis(outer.Header) {
+			if phi.Comment == "rangeindex" {
+				if _, ok := f.vals[phi]; ok {
+					env.vars[fmt.Sprintf("rangeindex%d", outer.Ordinal)] = EV{f.value(phi, st), phi.Type()}
+				}
+			}
+		}
+	}
+	env.lookup = f.localLookupAt(st, l.Header)
+	env.curParams = true
+	// a range over a map in this loop: visited(k) refers to its ghost set of visited keys
+	for _, b := range f.fn.Blocks {
+		if !l.Body[b] {
+			continue
+		}
+		for _, ins := range b.Instrs {
+			if nx, ok := ins.(*ssa.Next); ok {
+				if rng, ok := nx.Iter.(*ssa.Range); ok {
+					if mt, isMap := rng.X.Type().Underlying().(*types.Map); isMap {
+						env.rangeKey = f.rangeKey(rng, f.vc.sorts.sortOf(mt.Key()))
+					}
+				}
+			}
+		}
+	}
 	return env
 }
 
@@ -583,6 +619,7 @@ func (f *Frame) enterLoop(l *Loop, b *ssa.BasicBlock, predBlocks []*ssa.BasicBlo
 	if all {
 		hst = entry.havocKeys(keys, false) // keys contains "*": the whole heap plus the listed non-heap keys
 	}
+	hst.loopFrame = vc.con != nil && vc.con.ModSet && vc.con.Opts["loopframe"] == "on"
 	l.hstate = hst
 	l.phiNew = map[*ssa.Phi]Term{}
 	for _, phi := range phis {
